@@ -461,7 +461,8 @@ func (r *Runtime) arrayproto_splice(call FunctionCall) Value {
 		panic(r.NewTypeError("Invalid array length"))
 	}
 	a := r.arraySpeciesCreate(o, actualDeleteCount)
-	if src := r.checkStdArrayObjLen(o, length); src != nil {
+	// growing needs an extensible array with writable length and no setter / read-only index on the prototype chain
+	if src := r.checkStdArrayObjLen(o, length); src != nil && (itemCount <= actualDeleteCount || src.isResizable() && noIdxPropsOnProtoChain(src)) {
 		if dst := r.checkStdArrayObjWithProto(a); dst != nil {
 			values := make([]Value, actualDeleteCount)
 			copy(values, src.values[actualStart:])
@@ -554,7 +555,7 @@ func (r *Runtime) arrayproto_unshift(call FunctionCall) Value {
 		if newSize >= maxInt {
 			panic(r.NewTypeError("Invalid array length"))
 		}
-		if arr := r.checkStdArrayObjWithProto(o); arr != nil && newSize < math.MaxUint32 {
+		if arr := r.checkStdArrayObjWithProto(o); arr != nil && newSize < math.MaxUint32 && arr.isResizable() {
 			if int64(cap(arr.values)) >= newSize {
 				arr.values = arr.values[:newSize]
 				copy(arr.values[argCount:], arr.values[:length])
@@ -1012,7 +1013,7 @@ func (r *Runtime) arrayproto_reverse(call FunctionCall) Value {
 
 func (r *Runtime) arrayproto_shift(call FunctionCall) Value {
 	o := call.This.ToObject(r)
-	if a := r.checkStdArrayObjWithProto(o); a != nil {
+	if a := r.checkStdArrayObjWithProto(o); a != nil && a.lengthProp.writable {
 		if len(a.values) == 0 {
 			if !a.lengthProp.writable {
 				a.setLength(0, true) // will throw
@@ -1445,6 +1446,35 @@ func (r *Runtime) checkStdArrayObj(obj *Object) *arrayObject {
 	}
 
 	return nil
+}
+
+// noIdxPropsOnProtoChain reports whether no object on the prototype chain of arr has an own integer-keyed property,
+// i.e. [[Set]] on a new index of arr cannot be intercepted by an inherited setter or read-only property.
+func noIdxPropsOnProtoChain(arr *arrayObject) bool {
+	for p := arr.prototype; p != nil; {
+		var b *baseObject
+		switch o := p.self.(type) {
+		case *baseObject:
+			b = o
+		case *templatedObject:
+			b = &o.baseObject
+		case *templatedArrayObject:
+			b = &o.baseObject
+		default:
+			return false
+		}
+		b.ensurePropOrder()
+		if b.idxPropCount != 0 {
+			return false
+		}
+		p = p.self.proto()
+	}
+	return true
+}
+
+// isResizable reports whether the fast paths may add elements and change the length.
+func (a *arrayObject) isResizable() bool {
+	return a.extensible && a.lengthProp.writable
 }
 
 // checkStdArrayObjLen is checkStdArrayObj for callers that have read the length before running user code
